@@ -90,7 +90,7 @@ def run(ctx):
     if ncases < 1000:
         raise Infra("too few sequences exported: %d" % ncases)
     res = ctx.harness_json("system", ["c06-replay", cases_path], timeout=2700)
-    if res["evaluations"] < ncases:
+    if res["evaluations"] < ncases and not res.get("failures"):
         raise Infra("harness replayed %d of %d sequences" % (res["evaluations"], ncases))
     ctx.traces += res["extra"]["replays"]
     ctx.failures(res["failures"])
